@@ -22,6 +22,9 @@ import tempfile
 from fractions import Fraction as F
 from xml.etree import ElementTree
 
+import copy
+
+from .C16 import _raw, _same
 from . import common, oracles as O, shapes as SH
 from .C19 import Tokens
 from .common import run_e2, run_crosshair
@@ -203,6 +206,12 @@ def make_body(kind, name, quat):
         verts0 = [[shape.vertices[i][k] for k in range(3)] for i in range(len(P))]
         faces0 = [[int(i) for i in f] for f in shape.faces]
         edges0 = len(shape.edges)
+        # everything the object stores (incl. cached centroid / volume / plane equations) and a few derived answers
+        def snap():
+            return {k: ([x for x in v.flat] if isinstance(v, rnp.ndarray) else copy.deepcopy(v)) for k, v in _raw(shape).items()}
+
+        raw0 = snap()
+        seen0 = dict(centroid=[x for x in shape.centroid], volume=shape.volume, surface_area=shape.surface_area)
         d = tempfile.mkdtemp(prefix="c20_")
         texts = {}
         if ctx is not None:
@@ -301,6 +310,8 @@ def make_body(kind, name, quat):
         # unchanged
         H.claim_all_eq("shape_unchanged.vertices", [[shape.vertices[i][k] for k in range(3)] for i in range(len(P))], verts0)
         H.claim("shape_unchanged.faces", [[int(i) for i in f] for f in shape.faces] == faces0)
+        _same(H, "shape_unchanged.state", snap(), raw0)
+        _same(H, "shape_unchanged.answers", dict(centroid=[x for x in shape.centroid], volume=shape.volume, surface_area=shape.surface_area), seen0)
 
     return body
 
